@@ -1,8 +1,13 @@
 package main
 
 import (
+	"bytes"
 	"fmt"
 	"os"
+	"os/exec"
+	"path/filepath"
+	"strings"
+	"syscall"
 
 	"verif/mc/checks"
 	"verif/mc/kit"
@@ -19,6 +24,14 @@ func main() {
 	if len(os.Args) > 2 {
 		tier = os.Args[2]
 	}
+	if supervised[id] && os.Getenv("VERIF_SUPERVISED") == "" {
+		os.Exit(supervise(id, tier))
+	}
+	if os.Getenv("VERIF_SUPERVISED") != "" {
+		// a runaway allocation must end this process quickly instead of eating the machine
+		lim := uint64(40) << 30
+		_ = syscall.Setrlimit(syscall.RLIMIT_AS, &syscall.Rlimit{Cur: lim, Max: lim})
+	}
 	world.SilenceStdout()
 	defer world.Cleanup()
 	f, ok := checks.Registry[id]
@@ -30,4 +43,41 @@ func main() {
 	code := f(tier, os.Args[3:])
 	world.Cleanup()
 	os.Exit(code)
+}
+
+// supervised: properties that forbid a process-terminating fault outright.
+var supervised = map[string]bool{"C17": true, "C18": true}
+
+func supervise(id, tier string) int {
+	dir, err := os.MkdirTemp("/dev/shm", "verif-sup-")
+	if err != nil {
+		dir = os.TempDir()
+	}
+	defer os.RemoveAll(dir)
+	mark := filepath.Join(dir, "mark")
+	cmd := exec.Command(os.Args[0], os.Args[1:]...)
+	cmd.Env = append(os.Environ(), "VERIF_SUPERVISED=1", "VERIF_MARK_FILE="+mark)
+	cmd.Stdout = os.Stdout
+	var errBuf bytes.Buffer
+	cmd.Stderr = &errBuf
+	err = cmd.Run()
+	code := 0
+	if err != nil {
+		code = -1
+		if ee, ok := err.(*exec.ExitError); ok {
+			code = ee.ExitCode()
+		}
+	}
+	if code == kit.ExitOK || code == kit.ExitViolation || code == kit.ExitInfra {
+		os.Stderr.Write(errBuf.Bytes())
+		return code
+	}
+	last, _ := os.ReadFile(mark)
+	lines := strings.Split(errBuf.String(), "\n")
+	head := lines
+	if len(head) > 12 {
+		head = head[:12]
+	}
+	level := "exploration"
+	return kit.ReportFatal(id, tier, level, string(last), strings.Join(head, "\n"), os.Stdout)
 }
